@@ -79,6 +79,9 @@ theorem skeleton_wellBracketed : skeleton.wellBracketed = true := by decide
 theorem skeleton_alwaysCloses : skeleton.alwaysCloses = true := by decide
 theorem skeleton_ordered : skeleton.ordered = true := by decide
 theorem skeleton_writerFlushes : skeleton.writerFlushes = true := by decide
+/-- side condition of `Props.C04Kill`: a writing session flushes only into a file it opened itself (so the torn tail a
+killed writer left behind has been cut before anything is appended) -/
+theorem skeleton_opensBeforeWrite : skeleton.opensBeforeWrite = true := by decide
 theorem observed_lock_free : (allKinds.all fun k => allFaults.all fun f => lockFreeAfter k f) = true := by decide
 theorem observed_closed : (allKinds.all fun k => allFaults.all fun f => closedAfter k f) = true := by decide
 theorem observed_idle : (allKinds.all fun k => allFaults.all fun f => idleAfter k f) = true := by decide
